@@ -14,7 +14,7 @@ SAT_TRUST = (" SAT-backed library functions run on vendor/pysat (python-sat is n
 # id: (built, technique, level text, level_note, design_ref)
 CHECKS = {
     "C16": (True, "bounded exhaustive enumeration of all typed DAGs + explicit-state BFS over edit histories, on the implementation, vs reference reachability",
-            "Every DAG with <=5 (thorough <=6) nodes x every source/sink typing (inputs, constants 0/x (thorough 0/1/x), blackbox pins) x every output subset x both flag values, and a BFS over remove_unloaded/disconnect/remove/set_output histories (depth 2, thorough 3) from all 4-node seeds; deletion set, return value, survivor attributes and idempotence compared with an independent liveness oracle in every case. Every shape is also built in reverse (load-first) insertion order. Dead chains of up to 3000 (thorough 8000) nodes. Dead nodes called like a blackbox instance.",
+            "Every DAG with <=5 (thorough <=6) nodes x every source/sink typing (inputs, constants 0/x (thorough 0/1/x), blackbox pins) x every output subset x both flag values, and a BFS over remove_unloaded/disconnect/remove/set_output histories (depth 2, thorough 3) from all 4-node seeds; deletion set, return value, survivor attributes and idempotence compared with an independent liveness oracle in every case. Every shape is also built in reverse (load-first) insertion order. Dead chains of up to 3000 (thorough 8000) nodes. Dead nodes called like a blackbox instance. BFS clones carry hidden instance state (dirty flags, memos) and the state key includes it.",
             TRUST, "4/C16"),
     "C12": (True, "bounded exhaustive enumeration of all DAGs / digraphs x all argument subsets, on the implementation, vs reference graph algorithms",
             "Every DAG with <=6 nodes under three typings (plain, constants, blackbox pins) queried with every node and every non-empty node subset (all subsets up to 5 nodes; for 6-node DAGs subsets of size <=2, thorough <=4) for fanin/fanout/transitive_*/startpoints/endpoints/depths, plus levelize, topo_sort, reconvergent_fanout_nodes, kcuts k=1..4; every loop-free digraph on <=4 nodes for is_cyclic and the depth functions' rejection. Oracle: refgraph (closure, longest path) without networkx. Also: query / edit / query histories (connect, disconnect, remove, relabel, set_type, add_subcircuit of cyclic and acyclic children, fill_blackbox) on all 4-node DAG seeds. Chains and ladders of depth 3 ... 2600 (thorough 6000) with closed-form answers; history queries scramble first-round results and include a count-preserving edge move.",
@@ -23,19 +23,19 @@ CHECKS = {
             "adder w<=6 (thorough 8) x 4 carry options, mux w<=9 (12), popcount w<=12 (15), half/full adder: ALL input vectors; widths 16..64 on complete structured vector families; clog2 on 1..4096 (65536) and 2^k, 2^k+-1 to k=64; int_to_bin/bin_to_int for all i<2^w, w<=10 (13), both endiannesses; lint on every block. Also: obtain / edit / regenerate histories over 8 generators x 6 edits.",
             TRUST + " Large widths (16..64) are covered on a stated finite family of vectors, not all 2^2w.", "4/C13"),
     "C20": (True, "bounded exhaustive enumeration of all attributed graphs x all flag sets, on the implementation, vs an independent three-valued implementation of the documented rules",
-            "Every graph with <=2 nodes (thorough: 3 nodes over representative types) x 16 type choices incl. unsupported/missing x every edge set with self-loops x output marks x dotted names x 4 registries x all 16 flag combinations: lint must raise ValueError exactly when a documented rule is violated; plus lint on the output of every generator / parser / composition / transform over the (I<=2,G<=2) corpus. Producers include supergates, sequential_unroll, hierarchical pin names, remove_unloaded on blackbox circuits, the fast parser on h-spelt constants, and fills with children that hold blackboxes. Also write / re-read of flops with open and omitted pins through both parsers. lint / retype a node in place / lint; composition calls that try a second driver on a pin; generators after scrambled blocks. ternary on circuits whose companion names are taken.",
+            "Every graph with <=2 nodes (thorough: 3 nodes over representative types) x 16 type choices incl. unsupported/missing x every edge set with self-loops x output marks x dotted names x 4 registries x all 16 flag combinations: lint must raise ValueError exactly when a documented rule is violated; plus lint on the output of every generator / parser / composition / transform over the (I<=2,G<=2) corpus. Producers include supergates, sequential_unroll, hierarchical pin names, remove_unloaded on blackbox circuits, the fast parser on h-spelt constants, and fills with children that hold blackboxes. Also write / re-read of flops with open and omitted pins through both parsers. lint / retype a node in place / lint; composition calls that try a second driver on a pin; generators after scrambled blocks. ternary on circuits whose companion names are taken. Feed-through circuits (every output a primary input); remove_unloaded(inputs=True) next to a flop.",
             TRUST, "4/C20"),
     "C01": (True, "bounded exhaustive enumeration of circuits x assumptions x solver answers on the implementation; CNF decided by truth-table evaluation of the clause list (no solver) vs reference consistency",
             "Every gate type at fan-in 1..5 (parity 6) over structurally distinct operands under all name-to-operand assignments (all 24 orders of 4 operands observed); all acyclic and cyclic circuits for (I,G) in {(2,2),(1,3)} (thorough +(3,2),(2,3)), constants, blackbox pins; the clause list of cnf(c) evaluated over all its variables and projected on node variables must equal the brute-force consistent valuations; solve(c,A) for all 3^n partial assignments of <=4(5)-node circuits under enumerated solver answers; nodes named like the encoder's auxiliary variables; 3-5 PYTHONHASHSEEDs. Also: query / in-place edit / query histories on one object, gates that list themselves in their fan-in, two wide parity gates meeting a shared operand pair in both orders (measured). Partial assignments also over circuits with constants (an assignment contradicting a tie-off must be UNSAT).",
             TRUST + SAT_TRUST, "4/C01"),
     "C04": (True, "bounded exhaustive enumeration of circuit pairs x startpoint/endpoint subsets on the implementation, vs two independent reference simulations",
-            "c0 from (I<=2,G<=2) incl. feed-through outputs; c1 in {omitted, copy, every single-gate type mutation (mutated gate output or hidden), De-Morgan restructurings, every (2,1) circuit}; every non-empty subset of shared startpoints and shared endpoints plus defaults; sat table over tied + per-copy untied variables compared with OR_e(v0[e]^v1[e]); solve(m,{sat:1}) verdict under both solver polarities. Also: constants, circuits without inputs, names starting with the miter's own prefixes, the same argument objects (circuits, startpoint / endpoint sets) passed to two consecutive calls. Also: 1..50 (thorough 130) compared endpoints with a difference at exactly one of them, and call / in-place edit / call on the same two circuit objects.",
+            "c0 from (I<=2,G<=2) incl. feed-through outputs; c1 in {omitted, copy, every single-gate type mutation (mutated gate output or hidden), De-Morgan restructurings, every (2,1) circuit}; every non-empty subset of shared startpoints and shared endpoints plus defaults; sat table over tied + per-copy untied variables compared with OR_e(v0[e]^v1[e]); solve(m,{sat:1}) verdict under both solver polarities. Also: constants, circuits without inputs, names starting with the miter's own prefixes, the same argument objects (circuits, startpoint / endpoint sets) passed to two consecutive calls. Also: 1..50 (thorough 130) compared endpoints with a difference at exactly one of them, and call / in-place edit / call on the same two circuit objects. A c1 that computes one of c0's inputs itself (startpoint of c0 only).",
             TRUST + SAT_TRUST, "4/C04"),
     "C08": (True, "bounded exhaustive enumeration of circuits x assumption sets x solver polarities, plus explicit call histories on one object, on the implementation vs brute-force counting",
             "model_count for all circuits (I,G) in {(2,2),(3,1)} + constants + zero-startpoint + cyclic (2,2) + blackbox variants x all 3^n assumptions (n<=4 nodes; <=2-node assumptions beyond) x both polarities; cones with 5..8 (10) startpoints; signal_probability for every node (incl. startpoints, constants, outputs that are inputs); approx_model_count with a vendored exact projected counter: return value, sampling set, DIMACS header; depth-3 call histories (count / count with other assumptions / solve / retype / count) on one Circuit object. approx instances include single gates over 9-12 startpoints (sampling set spanning many ids). The count corpus holds nodes named like the encoder's auxiliary variables.",
             TRUST + SAT_TRUST + " approxmc is replaced by vendor/bin/approxmc (exact projected counter).", "4/C08"),
     "C09": (True, "bounded exhaustive enumeration of circuits x state maps x n (and sequential option products) on the implementation, vs iterated reference simulation over all initial states and input sequences",
-            "unroll: all circuits (I,G) in {(2,2),(3,1),(1,2)} + feed-through outputs x every injective partial map outputs->inputs x n<=3 (5), all initial states and input sequences bit-parallel, exact free-input set; sequential_unroll: logic around 1-2 flops of two pin alphabets x add_flop_outputs x initial_values (None,'0','1',dicts) x remove_unloaded x ignore_pins (str and list, pin names that contain the D/Q port name) x n<=3 (4) vs cycle-accurate simulation of the blackbox circuit, output set, absence of ignored-pin nodes. Also: repeated calls on one circuit object with the same argument objects (checked for modification), flops with an unconnected Q pin, circuits without inputs. unroll / sequential_unroll also under reverse-order, stale and alias histories. Flop instances called like io nets.",
+            "unroll: all circuits (I,G) in {(2,2),(3,1),(1,2)} + feed-through outputs x every injective partial map outputs->inputs x n<=3 (5), all initial states and input sequences bit-parallel, exact free-input set; sequential_unroll: logic around 1-2 flops of two pin alphabets x add_flop_outputs x initial_values (None,'0','1',dicts) x remove_unloaded x ignore_pins (str and list, pin names that contain the D/Q port name) x n<=3 (4) vs cycle-accurate simulation of the blackbox circuit, output set, absence of ignored-pin nodes. Also: repeated calls on one circuit object with the same argument objects (checked for modification), flops with an unconnected Q pin, circuits without inputs. unroll / sequential_unroll also under reverse-order, stale and alias histories. Flop instances called like io nets. A scan flop unrolled along SD with its D pin ignored (pin names that are suffixes of one another).",
             TRUST, "4/C09"),
     "C10": (True, "bounded exhaustive enumeration of circuits x insertion orders on the implementation, all ternary patterns bit-parallel, vs reference Kleene evaluator",
             "All circuits (3,2,arity<=4), (2,3), (1,3) (thorough +(3,3)) with constants, wide gates, outputs that are inputs/constants, each built in forward and reverse node-insertion order; all 4^I (value, is-X) valuations: mapping[n]==1 iff Kleene X, else n carries the Kleene value. Also: ternary applied to the output of ternary (every synthesised name already taken), call / edit / call on one object, circuits without inputs.",
@@ -50,22 +50,22 @@ CHECKS = {
             "All fan-in<=2 circuits (2,3) over 6 types and (3,3) over {nand,nor,xor,not} with sink outputs and single-output variants + the textbook 13-gate example: single output per element, topological order, cover of every gate in the output cones, induced wiring, pairwise (reflexively) disjoint fan-in of supergate inputs; circuits with 3..4-input gates: cover + super-circuit; construct_supercircuit=True on every single-output circuit evaluated hierarchically (never flattened) vs the original function. Also: constants in cones, outputs whose cone is a single node, unloaded logic next to the cone, a family of two cones sharing a gate, all 4-input / 4-gate and-not circuits with every gate an output, call / edit / call. Two overlapping cones over a shared gate (3^4 x 4 x 9 circuits, thorough 5^4 x 4 x 9), constant outputs, x constants; super-circuit form under stale / alias histories. Shared wide gates under several hash seeds with a cross-supergate consistency clause; outputs that are primary inputs in the super-circuit form.",
             TRUST, "4/C17"),
     "C18": (True, "bounded exhaustive enumeration of cyclic circuits x output subsets x hash seeds on the implementation, vs brute-force fixed points",
-            "All circuits (I,G) in {(1,2),(2,2),(1,3 arity 2)} (thorough +(1,3 arity 3),(2,3),(1,4)) whose gate fan-ins are arbitrary subsets of the other nodes and that contain a cycle, every output subset of size <=2, 3 hash seeds: result acyclic, lint-clean, same outputs, inputs = originals + one auxiliary per cut node; for every input valuation and every stable state, auxiliaries set to the stable values reproduce every output. Also: all loop-free digraphs on 4 nodes (thorough: 5 nodes) in two insertion orders, outputs that are inputs, circuits without inputs, call / rewire / call on one object. Also circuits whose names start with the prefixes the transform gives its copies. Names with the aux_in_ prefix.",
+            "All circuits (I,G) in {(1,2),(2,2),(1,3 arity 2)} (thorough +(1,3 arity 3),(2,3),(1,4)) whose gate fan-ins are arbitrary subsets of the other nodes and that contain a cycle, every output subset of size <=2, 3 hash seeds: result acyclic, lint-clean, same outputs, inputs = originals + one auxiliary per cut node; for every input valuation and every stable state, auxiliaries set to the stable values reproduce every output. Also: all loop-free digraphs on 4 nodes (thorough: 5 nodes) in two insertion orders, outputs that are inputs, circuits without inputs, call / rewire / call on one object. Also circuits whose names start with the prefixes the transform gives its copies. Names with the aux_in_ prefix. Bus-bit names next to their flattened spelling (y[0], y_0_).",
             TRUST, "4/C18"),
     "C07": (True, "explicit-state breadth-first search over the live Circuit object (all operation sequences up to a depth over a finite alphabet), invariant in every state, transition checks on every call",
             "181-operation alphabet (add with every type / fan-in / fan-out shape incl. missing, duplicate, self-referential names, uid=True; connect / disconnect on all pairs and lists; remove; set_output; add_blackbox with legal, illegal and unknown-pin connections; add_subcircuit with two children; fill_blackbox with matching / non-matching children) from 5 seed circuits, depth 3 (thorough 4), plus a 33-operation core alphabet explored to depth 6 (thorough 9) with exact de-duplication: wiring invariant + blackbox-pin invariant in every state; every raising call adds no edge and raises ValueError; uid=True never touches an existing node. The alphabet includes list-valued connects from a pin and multi-source connects ending in an illegal source. A blackbox definition listing one name as input and output is in the alphabet. The circuit itself as child / filling, the empty name, a fill child with an internal node whose prefixed name is taken.",
             TRUST + " State counts are summed over first-operation partitions.", "4/C07"),
     "C02": (True, "bounded exhaustive enumeration of programs generated from a reference grammar (all syntax trees up to an operator bound, all item permutations, all layouts with <=d deviations) parsed by the implementation, vs the AST's denotation",
-            "ALL concrete syntax trees with <=2 (thorough 3) operator tokens over ~ ! & | ^ ~^ ^~ ?: ( ) and constants (77k programs, 48 assigns per module, failing modules re-run one assign at a time); primitive instances of 8 types at fan-in 1..4 incl. repeated operands, several per statement; 16 modules in ALL item permutations (use before definition, repeated sub-expressions, assignment lists, blackboxes); blackbox pins connected / .p() / omitted / constant; port-list vs declaration cross-check (all combinations for 2 names); every gap of two programs with <=1 (2) layout deviations incl. comments; module selection; nets named like the parser's synthetic names (known finding, listed programs). Dense layouts (no white space wherever legal) of every third packed module and of every layout program; read / edit / read on one text. Wires called tie_0 / tie_1 assigned their own constant (the writer's spelling).",
+            "ALL concrete syntax trees with <=2 (thorough 3) operator tokens over ~ ! & | ^ ~^ ^~ ?: ( ) and constants (77k programs, 48 assigns per module, failing modules re-run one assign at a time); primitive instances of 8 types at fan-in 1..4 incl. repeated operands, several per statement; 16 modules in ALL item permutations (use before definition, repeated sub-expressions, assignment lists, blackboxes); blackbox pins connected / .p() / omitted / constant; port-list vs declaration cross-check (all combinations for 2 names); every gap of two programs with <=1 (2) layout deviations incl. comments; module selection; nets named like the parser's synthetic names (known finding, listed programs). Dense layouts (no white space wherever legal) of every third packed module and of every layout program; read / edit / read on one text. Wires called tie_0 / tie_1 assigned their own constant (the writer's spelling). Comments whose text holds the other comment kind's opener.",
             TRUST + " The reference grammar encodes Verilog precedence ~ ! > & > ^ ~^ ^~ > | > ?: and is part of the trusted base.", "4/C02"),
     "C06": (True, "exhaustive enumeration of operation histories (add_subcircuit / add_blackbox / fill_blackbox / strip_blackboxes) on the live object up to a depth, every state compared with a hierarchical reference model",
-            "Depth-1/2 histories over every child of (1,2),(2,2 arity 2) + special children x every connection map (inputs from {a,b,g,unattached}, outputs to sockets) x both routes (splice, blackbox then fill); two-instance histories (second may attach to nodes of the first, all interleavings of add_blackbox/fill) over 6 children incl. nested blackbox, feed-through and constant children, depth 3 (4); after every call: parent io, registry, pins, and every node's function vs a hierarchy-tree evaluation that never flattens; strip_blackboxes with and without ignore_pins on every state holding a blackbox. Histories that instantiate one definition twice are also run with the same argument objects (child Circuit, BlackBox, connection dict) handed to every call. Fills with a child of another interface followed by the proper fill, and parent instances whose names collide with a carried-over sub-blackbox. A copy of the parent taken before every call must be unchanged after it; pin names that collide after stripping must be refused.",
+            "Depth-1/2 histories over every child of (1,2),(2,2 arity 2) + special children x every connection map (inputs from {a,b,g,unattached}, outputs to sockets) x both routes (splice, blackbox then fill); two-instance histories (second may attach to nodes of the first, all interleavings of add_blackbox/fill) over 6 children incl. nested blackbox, feed-through and constant children, depth 3 (4); after every call: parent io, registry, pins, and every node's function vs a hierarchy-tree evaluation that never flattens; strip_blackboxes with and without ignore_pins on every state holding a blackbox. Histories that instantiate one definition twice are also run with the same argument objects (child Circuit, BlackBox, connection dict) handed to every call. Fills with a child of another interface followed by the proper fill, and parent instances whose names collide with a carried-over sub-blackbox. A copy of the parent taken before every call must be unchanged after it; pin names that collide after stripping must be refused. After every history the circuit is instantiated inside itself and compared with the same call on independent copies.",
             TRUST, "4/C06"),
     "C14": (True, "bounded exhaustive enumeration of restricted-subset programs (circuit space x styles x statement orders, all permutations of a family, all layouts with <=d white-space deviations) through both parsers, differential + denotational oracle",
-            "Netlists from (2,1),(1,2 arity 4),(2,2 arity 2) + constants in writer and synthesis style, forward/reversed/rotated statement order; 6 modules in ALL statement permutations; blackbox pins connected / .p() / omitted / constant for two blackbox types; every gap (except ')' ';') of two programs with <=1 (2) white-space deviations; 19 bundled netlists that satisfy the restrictions (comment-stripped): same io, instances, pin connections, identical graphs up to the constant-node names, and the fast result denotes the AST. Also: nets named like either parser's constants or ending in a declaration keyword, repeated gate operands, h-spelt constants, and parse histories (one blackbox type name bound to different pin lists from call to call). Identifier shapes (leading underscore, capitals, digits) in every role, ports that are input and output, repeated parity operands from one name family and up to 15 repeats. Implicit (undeclared) nets, blackbox cells called like a primitive in another case.",
+            "Netlists from (2,1),(1,2 arity 4),(2,2 arity 2) + constants in writer and synthesis style, forward/reversed/rotated statement order; 6 modules in ALL statement permutations; blackbox pins connected / .p() / omitted / constant for two blackbox types; every gap (except ')' ';') of two programs with <=1 (2) white-space deviations; 19 bundled netlists that satisfy the restrictions (comment-stripped): same io, instances, pin connections, identical graphs up to the constant-node names, and the fast result denotes the AST. Also: nets named like either parser's constants or ending in a declaration keyword, repeated gate operands, h-spelt constants, and parse histories (one blackbox type name bound to different pin lists from call to call). Identifier shapes (leading underscore, capitals, digits) in every role, ports that are input and output, repeated parity operands from one name family and up to 15 repeats. Implicit (undeclared) nets, blackbox cells called like a primitive in another case. Parity gates that repeat a constant literal.",
             TRUST, "4/C14"),
     "C15": (True, "bounded exhaustive enumeration of bench texts generated from a bench AST (all spellings, all line orders up to 5 lines, white-space variants) and of circuits for the round trip, on the implementation, vs the AST's denotation",
-            "Texts from the (2,2) circuit space in 2-4 spellings x ALL line orders (<=5 lines; 4 orders beyond), a fixed family with repeated operands, fan-in 4, DFF chains in every line order x 4 white-space styles; each net's function, declared io and each DFF blackbox (D driven by, Q drives); round trip of all circuits (2,2),(3,1),(1,2) + constants feeding gates / as outputs + outputs that are inputs under 3 hash seeds. Also read / edit / read histories on one text. Names with a leading underscore and 100+ character names.",
+            "Texts from the (2,2) circuit space in 2-4 spellings x ALL line orders (<=5 lines; 4 orders beyond), a fixed family with repeated operands, fan-in 4, DFF chains in every line order x 4 white-space styles; each net's function, declared io and each DFF blackbox (D driven by, Q drives); round trip of all circuits (2,2),(3,1),(1,2) + constants feeding gates / as outputs + outputs that are inputs under 3 hash seeds. Also read / edit / read histories on one text. Names with a leading underscore and 100+ character names. Every text also with # comments that look like statements (commented-out declarations and definitions, remarks behind statements).",
             TRUST, "4/C15"),
     "C19": (True, "exhaustive enumeration of (public function variant x corpus circuit) with a fixed edit history applied to result and to argument, on the implementation, deep-snapshot oracle",
             "68 function variants (all of tx except syn/aig, props, sat incl. approx_model_count on the stand-in, writers, to_file, lint, every read-only Circuit method, add_subcircuit/fill_blackbox's circuit argument) x 212 corpus circuits (enumerated + flops with two outputs, constants, cycles, escaped names): argument snapshot (all node attribute dicts, edges, name, registry incl. BlackBox identity and pin sets) identical after the call, also when it raises; 12 edits applied to every returned Circuit must not change the argument and vice versa. Also: circuits built on bare graphs (no 'output' attribute on non-outputs), a loop with a self-loop, constant-only circuits. A corpus circuit with dead logic.",
